@@ -72,6 +72,10 @@ def build_good(case, only=None):
     B = 16
     rng = random.Random(case["seed"] * 7919 + 109)
     net = scenario.random_net(rng, allow_small_pipe=False)
+    if sum(len(x) for x in case.get("hostile") or ()) > 20000 and (net.get("seg_mode") == "dribble" or net.get("seg_max", 1460) < 256):
+        # a 200000-byte line in 1-byte segments is 200000 simulated network events: keep the
+        # segmentation but not below a few hundred bytes per segment
+        net["seg_mode"], net["seg_max"] = "random", 1460
     S = corpus.scripts(B)
     tree = {}
     sessions = []
@@ -188,6 +192,15 @@ def run_server_case(case):
         return _res(world, case, viol, {"mode.server": 1, "probe.spin_detected": 1}, world.digest(repr(case)))
     if obs.outcome not in ("ok", "deadlock", "budget"):
         raise common.HarnessError(f"scenario failed: {obs.outcome}: {obs.error!r}")
+    if obs.outcome == "budget":
+        # the step budget of the simulation ran out (cost of the simulated network, not a property
+        # of the server): nothing is concluded from an unfinished run
+        if world.net.seq > 50000:
+            return _res(world, case, [], {"mode.server": 1, "inconclusive.step_budget": 1}, obs.digest)
+        # 400000 loop steps with hardly any network traffic: tasks that keep rescheduling
+        # themselves without getting anywhere
+        viol.append({"clause": "hang", "subject": "livelock", "detail": f"step budget exhausted after only {world.net.seq} network events ({_short(case)})"})
+        return _res(world, case, viol, {"mode.server": 1}, obs.digest)
     if obs.outcome == "deadlock":
         viol.append({"clause": "hang", "subject": "server", "detail": "simulation deadlocked"})
     for i, e_ref in ref.items():
